@@ -384,3 +384,33 @@ func init() {
 		}
 	}
 }
+
+func init() {
+	// C18: one user keeps selling uelys into the uelys/uusdc pool, three reserves at a time: the pool ends up so lopsided that
+	// the ELYS (= Eden) price it implies, times the price of one base unit of USDC, rounds to zero at 18 decimals.
+	scenarios["c18-elys-pool-lopsided"] = func(sc *Scn) {
+		w := sc.w
+		whale := w.Accts[3]
+		p := sc.std.Pools[1]
+		w.Seed(func(ctx sdk.Context) {
+			w.Fund(ctx, whale.Addr, sdk.NewCoins(sdk.NewCoin("uelys", math.NewIntWithDecimal(1, 24))))
+		})
+		for k := 0; k < 14; k++ {
+			pool, ok := w.App.AmmKeeper.GetPool(w.Ctx(), p.Id)
+			if !ok {
+				return
+			}
+			var res math.Int
+			for _, pa := range pool.PoolAssets {
+				if pa.Token.Denom == "uelys" {
+					res = pa.Token.Amount
+				}
+			}
+			a := res.MulRaw(3)
+			sc.Tx("amm.swapIn", whale, J{"pool": p.Id, "in": []string{"uelys", a.String()}, "hops": 1, "recipient": whale.Addr.String()},
+				&ammtypes.MsgSwapExactAmountIn{Sender: whale.Addr.String(), Routes: []ammtypes.SwapAmountInRoute{{PoolId: p.Id, TokenOutDenom: "uusdc"}},
+					TokenIn: sdk.NewCoin("uelys", a), TokenOutMinAmount: math.OneInt(), Recipient: whale.Addr.String()})
+			sc.Empty(5 * time.Second)
+		}
+	}
+}
